@@ -65,6 +65,27 @@ var overrides = map[string]natfn{}
 
 // symIfaceEq handles ==/!= on interface values whose payload is symbolic.
 func symIfaceEq(op token.Token, x, y value) (value, bool) {
+	// raw-map values of a symbolic document compared with nil
+	if dv, ok := x.(docVal); ok {
+		if iy, ok := y.(iface); ok && iy.t == nil {
+			r := docValIsNil(dv)
+			if op == token.NEQ {
+				r = symNot(r)
+			}
+			return simplifyBool(r), true
+		}
+		panic(unsupported("comparison of a symbolic raw-map value"))
+	}
+	if dv, ok := y.(docVal); ok {
+		if ix, ok := x.(iface); ok && ix.t == nil {
+			r := docValIsNil(dv)
+			if op == token.NEQ {
+				r = symNot(r)
+			}
+			return simplifyBool(r), true
+		}
+		panic(unsupported("comparison of a symbolic raw-map value"))
+	}
 	ix, ok1 := x.(iface)
 	iy, ok2 := y.(iface)
 	if !ok1 || !ok2 {
